@@ -27,8 +27,30 @@ REQUIRED = ["inst_state_projection", "noninterference", "same_projection_same_ou
             "seeded_repro", "read_pure", "global_untouched", "screen_code_present", "screen_code_uses_no_global_rng"]
 
 
+SEED_TYPES = ["int", "int", "int64", "int32", "uint32", "uint64", "big"]
+
+
+def mkseed(v, t):
+    """the same seed VALUE presented as the different integer types a caller may hold (Python int, NumPy scalars,
+    e.g. an element of numpy.arange or of rng.integers(...)); 'big' exercises seeds beyond 2**32"""
+    if v is None:
+        return None
+    if t == "int64":
+        return numpy.int64(v)
+    if t == "int32":
+        return numpy.int32(v)
+    if t == "uint32":
+        return numpy.uint32(v)
+    if t == "uint64":
+        return numpy.uint64(v)
+    if t == "big":
+        return int(v) + 2 ** 40
+    return int(v)
+
+
 def mk_screen(cfg):
     from aotools.turbulence import infinitephasescreen as ips
+    cfg = dict(cfg, seed=mkseed(cfg["seed"], cfg.get("seed_type", "int")))
     if cfg["variant"] == "vk":
         return ips.PhaseScreenVonKarman(cfg["nx"], cfg["px"], cfg["r0"], cfg["L0"], random_seed=cfg["seed"], n_columns=cfg["ncol"])
     return ips.PhaseScreenKolmogorov(cfg["nx"], cfg["px"], cfg["r0"], cfg["L0"], random_seed=cfg["seed"],
@@ -47,7 +69,7 @@ def global_state():
 def finite_call(op):
     from aotools.turbulence import phasescreen
     f = phasescreen.ft_sh_phase_screen if op["sh"] else phasescreen.ft_phase_screen
-    return f(op["r0"], op["N"], op["delta"], op["L0"], op["l0"], seed=op["seed"])
+    return f(op["r0"], op["N"], op["delta"], op["L0"], op["l0"], seed=mkseed(op["seed"], op.get("seed_type", "int")))
 
 
 def other_call(k):
@@ -63,16 +85,25 @@ def other_call(k):
     return aotools.structure_function_vk(numpy.array([.1, .2]), .2, 20.)
 
 
+def canon(cfg):
+    """configuration up to the integer TYPE of the seed (the value is what matters; 'big' is a different value)"""
+    d = dict(cfg)
+    d["seed_type"] = "big" if d.get("seed_type") == "big" else "int"
+    return d
+
+
 def gen_history(rng, quick):
     n_inst = rng.randint(2, 4)
     cfgs = []
     for i in range(n_inst):
         if i > 0 and rng.random() < 0.5:
-            cfgs.append(dict(rng.choice(cfgs)))          # a reproduction of an earlier instance (same seed & parameters)
+            c0 = rng.choice(cfgs)                          # a reproduction of an earlier instance (same seed & parameters),
+            st = c0["seed_type"] if c0["seed_type"] == "big" else rng.choice([t for t in SEED_TYPES if t != "big"])
+            cfgs.append(dict(c0, seed_type=st))            # the seed possibly held as another integer type
         else:
             cfgs.append({"variant": rng.choice(["vk", "vk", "fried"]), "nx": rng.choice([6, 8, 9, 12] if quick else [6, 8, 9, 12, 16, 17]),
                          "px": rng.choice([0.05, 0.1]), "r0": rng.choice([0.1, 0.16]), "L0": rng.choice([10., 25.]),
-                         "seed": rng.randint(0, 5), "ncol": 2, "slf": rng.choice([2, 4])})
+                         "seed": rng.randint(0, 5), "seed_type": rng.choice(SEED_TYPES), "ncol": 2, "slf": rng.choice([2, 4])})
     ops, created = [], set()
     length = rng.randint(8, 16 if quick else 40)
     for _ in range(length):
@@ -86,7 +117,8 @@ def gen_history(rng, quick):
         elif r < 0.7:
             ops.append({"op": "read", "i": rng.choice(sorted(created))})
         elif r < 0.8:
-            ops.append({"op": "finite", "sh": rng.random() < 0.5, "seed": rng.randint(0, 3), "N": rng.choice([8, 16]),
+            ops.append({"op": "finite", "sh": rng.random() < 0.5, "seed": rng.randint(0, 3), "seed_type": rng.choice(SEED_TYPES),
+                        "N": rng.choice([8, 16]),
                         "r0": 0.15, "delta": 0.05, "L0": 20., "l0": 0.01})
         elif r < 0.87:
             ops.append({"op": "globalSeed", "s": rng.randint(0, 100)})
@@ -123,7 +155,7 @@ def execute(cfgs, ops, observe):
             b = numpy.array(s.scrn, copy=True)
             outs[op["i"]].append(numpy.concatenate([a.ravel(), b.ravel()]))
         elif kind == "finite":
-            fin.append((json.dumps({k: v for k, v in op.items()}, sort_keys=True), finite_call(op)))
+            fin.append((json.dumps(canon(op), sort_keys=True), finite_call(op)))
         elif kind == "globalSeed":
             numpy.random.seed(op["s"])
             pyrandom.seed(op["s"])
@@ -224,15 +256,15 @@ def run(chk):
                 pi = [o["op"] for o in ops if o.get("i") == i and o["op"] in ("create", "addRow", "read")]
                 pj = [o["op"] for o in ops if o.get("i") == j and o["op"] in ("create", "addRow", "read")]
                 n = min(len(pi), len(pj))
-                if cfgs[i] == cfgs[j] and pi[:n] == pj[:n]:
+                if canon(cfgs[i]) == canon(cfgs[j]) and pi[:n] == pj[:n]:
                     chk.count("reproduction-pairs")
                     for x, y in zip(outs[i][:n], outs[j][:n]):
                         if x.tobytes() != y.tobytes():
                             chk.fail("repro:infinite:%s" % cfgs[i]["variant"], "two %s screens with the same seed %d and parameters differ"
                                      % (cfgs[i]["variant"], cfgs[i]["seed"]), {"configs": cfgs, "ops": ops, "pair": [i, j]})
                             break
-                elif cfgs[i]["seed"] != cfgs[j]["seed"] and {k: v for k, v in cfgs[i].items() if k != "seed"} == \
-                        {k: v for k, v in cfgs[j].items() if k != "seed"}:
+                elif cfgs[i]["seed"] != cfgs[j]["seed"] and {k: v for k, v in canon(cfgs[i]).items() if k != "seed"} == \
+                        {k: v for k, v in canon(cfgs[j]).items() if k != "seed"}:
                     if outs[i][0].tobytes() == outs[j][0].tobytes():
                         chk.fail("seeds-differ:infinite", "different seeds gave identical infinite screens", {"configs": cfgs})
         # finite screens: same call => bit-identical, wherever it occurs
@@ -250,6 +282,10 @@ def run(chk):
             if ref.tobytes() != val.tobytes():
                 chk.fail("repro:finite:%s" % ("sh" if k["sh"] else "plain"), "finite screen with seed %d differs from the same call in a fresh "
                          "context" % k["seed"], {"call": k, "configs": cfgs, "ops": ops})
+            for st in ("int", "int64", "uint32"):
+                if k.get("seed_type") != "big" and finite_call(dict(k, seed_type=st)).tobytes() != val.tobytes():
+                    chk.fail("repro:finite:seed-type", "finite screen with seed %d held as %s differs from the same seed value held as another "
+                             "integer type" % (k["seed"], st), {"call": k, "seed_type": st})
             k2 = dict(k, seed=k["seed"] + 1)
             if finite_call(k2).tobytes() == val.tobytes():
                 chk.fail("seeds-differ:finite", "finite screens with seeds %d and %d are identical" % (k["seed"], k["seed"] + 1), {"call": k})
